@@ -3,7 +3,7 @@ import json
 import os
 import subprocess
 
-from .report import VERIF, REPO, VENV_PY, write_replay, FAILED
+from .report import VERIF, REPO, VENV_PY, write_replay, FAILED, UNDECIDED, Obligation
 
 SEARCH = int(os.environ.get("PYVC_REPLAY_SEARCH", "300"))
 
@@ -48,6 +48,58 @@ def attach_replays(rep, seed=0):
         path = write_replay(rep.pid, ob.oid, payload)
         ob.replay = dict(path=path, confirmed=confirmed, signature=_signature(rep.pid, ob, res))
         ob.detail += " | native replay: %s" % json.dumps(res, default=str)[:600]
+
+
+def search_witnesses(rep, seed=0):
+    """Undecided obligations (solver gave up, harness left the executor's subset or ran out of budget) are not
+    violations.  But the same harness runs natively against the real code: a random search over its inputs that finds
+    an input on which an obligation is false IS a failing input of the real code - then, and only then, the obligation
+    is reported as failed (with the input as its replay).  Finding nothing leaves the obligation undecided."""
+    done = set()
+    for ob in list(rep.obligations):
+        if ob.status != UNDECIDED or not getattr(ob, "harness", None):
+            continue
+        anyo = getattr(ob, "any_obligation", False)
+        oname = "*" if anyo else ob.oid.split("/", 1)[1]
+        key = (ob.harness, oname)
+        if key in done:
+            continue
+        done.add(key)
+        payload = dict(kind="pyvc-harness", contract=ob.contract_mod, harness=ob.harness, obligation_name=oname, inputs={},
+                       seed=seed, obligation_text=ob.text, solver_backend=ob.backend, solver_output=ob.detail,
+                       how_to_run="cd /verif && ./check %s --replay <this file>" % rep.pid)
+        path = write_replay(rep.pid, ob.oid + "@search", payload)
+        rc, res = native(path, search=WITNESS_SEARCH)
+        if not (rc == 1 and res.get("status") == "fails"):
+            try:
+                os.remove(path)
+            except OSError:
+                pass
+            ob.detail += " | native witness search (%d random inputs): none found" % WITNESS_SEARCH
+            continue
+        found = res.get("obligation") or oname
+        payload.update(confirmed=True, native_result=res, inputs=res.get("inputs", {}), seed=res.get("seed", seed),
+                       obligation_name=found, found_by=res.get("how"))
+        os.remove(path)
+        oid = "%s/%s" % (ob.harness, found)
+        path = write_replay(rep.pid, oid, payload)
+        detail = "no verdict from the solver (%s); failing input found by native search: %s" % (
+            ob.detail[:300], json.dumps(res, default=str)[:600])
+        if anyo:
+            nob = Obligation(oid, ob.clause, "obligation %s of harness %s" % (found, ob.harness), FAILED, "native-search", 0.0,
+                             label=ob.label, detail=detail)
+            nob.harness = ob.harness
+            nob.contract_mod = ob.contract_mod
+            nob.replay = dict(path=path, confirmed=True, signature=oid)
+            rep.add(nob)
+        else:
+            ob.status = FAILED
+            ob.backend = (ob.backend + "+native-search").strip("+")
+            ob.detail = detail
+            ob.replay = dict(path=path, confirmed=True, signature=oid)
+
+
+WITNESS_SEARCH = int(os.environ.get("PYVC_WITNESS_SEARCH", "40"))
 
 
 def _signature(pid, ob, res):
